@@ -23,6 +23,7 @@ pub enum OwnN {
     Funnel,
     Steep { c: f64 },                          // -c sum x^4
     HalfLine,                                  // sum ln x - x
+    Gamma { a: f64, b: f64 },                  // sum a ln x - b x: NaN log-density with a FINITE gradient for x < 0
     SqrtLine,                                  // sum ln sqrt(x) - x: log-density AND gradient are NaN for x < 0
     Cliffs { cell: f64, levels: Vec<f64>, omega2: f64, kappa: f64 },
     BoxU,                                      // uniform on (0,1)^d: 0 inside, -inf outside, gradient 0
@@ -42,6 +43,7 @@ impl OwnN {
             }
             OwnN::Steep { c } => -c * x.iter().map(|t| t.powi(4)).sum::<f64>(),
             OwnN::HalfLine => x.iter().map(|v| v.ln() - v).sum(),
+            OwnN::Gamma { a, b } => x.iter().map(|v| a * v.ln() - b * v).sum(),
             OwnN::SqrtLine => x.iter().map(|v| v.sqrt().ln() - v).sum(),
             OwnN::BoxU => if x.iter().all(|v| *v > 0.0 && *v < 1.0) { 0.0 } else { f64::NEG_INFINITY },
             OwnN::Norm2 => -x.iter().map(|v| v * v).sum::<f64>().sqrt(),
@@ -63,6 +65,7 @@ impl OwnN {
             }
             OwnN::Steep { c } => x.iter().map(|t| -4.0 * c * t.powi(3)).collect(),
             OwnN::HalfLine => x.iter().map(|v| 1.0 / v - 1.0).collect(),
+            OwnN::Gamma { a, b } => x.iter().map(|v| a / v - b).collect(),
             OwnN::SqrtLine => x.iter().map(|v| 0.5 / (v.sqrt() * v.sqrt()) - 1.0).collect(),
             OwnN::BoxU => vec![0.0; x.len()],
             OwnN::Norm2 => { let r = x.iter().map(|v| v * v).sum::<f64>().sqrt(); x.iter().map(|v| -v / r).collect() }
@@ -104,6 +107,17 @@ impl<T: Float, B: AutodiffBackend> GradientTarget<T, B> for Steep {
     fn unnorm_logp(&self, x: Tensor<B, 1>) -> Tensor<B, 1> {
         let x2 = x.clone() * x;
         (x2.clone() * x2).sum().mul_scalar(-self.c)
+    }
+}
+/// Gamma(a + 1, b) per coordinate, written with `log`: scales far below 1 when b is large.
+#[derive(Clone)]
+pub struct GammaN {
+    pub a: f64,
+    pub b: f64,
+}
+impl<T: Float, B: AutodiffBackend> GradientTarget<T, B> for GammaN {
+    fn unnorm_logp(&self, x: Tensor<B, 1>) -> Tensor<B, 1> {
+        (x.clone().log().mul_scalar(self.a) - x.mul_scalar(self.b)).sum()
     }
 }
 #[derive(Clone)]
